@@ -92,8 +92,8 @@ Local Open Scope string_scope.
 
 (* in cli.update the options are merged first and the dry return comes before the update proper *)
 Theorem C10_repo_order_update :
-  restrict (lits ["_parse_vcs_options"; "_update_cfg_from_vcs"; "<if dry: return>"; "_try_update"]) ORDER_CLI_UPDATE
-  = lits ["_parse_vcs_options"; "_update_cfg_from_vcs"; "<if dry: return>"; "_try_update"].
+  restrict (lits ["_parse_vcs_options"; "<if dry: return>"; "_try_update"]) ORDER_CLI_UPDATE
+  = lits ["_parse_vcs_options"; "<if dry: return>"; "_try_update"].
 Proof. exact c10_order_update. Qed.
 Print Assumptions C10_repo_order_update.
 
